@@ -451,7 +451,7 @@ func genC11Case(r *Rng) c11Input {
 		return r.Intn(in.NVals)
 	}
 	pickFeeder := func(v int) int {
-		switch r.Pick(8, 5, 3, 2, 1) {
+		switch r.Pick(10, 7, 2, 1, 1) {
 		case 0:
 			return v
 		case 1:
@@ -463,16 +463,53 @@ func genC11Case(r *Rng) c11Input {
 			if oldDel[v] >= 0 {
 				return oldDel[v]
 			}
-			return r.Range(5, 7)
+			return v
 		case 3:
 			return r.Range(5, 7)
 		}
 		return r.Intn(5)
 	}
+	if nblocks > 20 {
+		nblocks = 20
+	}
 	for b := 0; b < nblocks; b++ {
-		nm := r.Pick(2, 4, 4, 3, 2)
+		// the feeder routine of a price feeder: reveal last period's commitment, commit the next one
+		for v := 0; v < in.NVals; v++ {
+			if !r.Chance(3, 5) {
+				continue
+			}
+			f := pickFeeder(v)
+			if sh := shadow[v]; sh.has && r.Chance(9, 10) {
+				op := c11Op{Kind: "vote", H: h, Val: v, Feeder: f, Salt: sh.salt, Rates: sh.rates}
+				switch r.Pick(30, 2, 2, 1, 1) {
+				case 1:
+					op.Salt = c11Salts[r.Intn(len(c11Salts))]
+				case 2:
+					for k, s := range c11Rates {
+						if s == sh.rates {
+							op.Rates = c11RatesVariant[k]
+						}
+					}
+				case 3:
+					op.Rates = c11Rates[r.Intn(len(c11Rates))]
+				case 4:
+					op.Rates = c11RatesOdd[r.Intn(len(c11RatesOdd))]
+				}
+				in.Ops = append(in.Ops, op)
+			}
+			if r.Chance(4, 5) {
+				op := c11Op{Kind: "prevote", H: h, Val: v, Feeder: f, HashFor: v, HashMode: "honest",
+					Salt: c11Salts[r.Pick(5, 3, 2, 2, 1, 1)], Rates: c11Rates[r.Intn(len(c11Rates))]}
+				if r.Chance(1, 12) {
+					op.HashMode = "upper"
+				}
+				in.Ops = append(in.Ops, op)
+				shadow[v] = c11Shadow{salt: op.Salt, rates: op.Rates, h: h, has: true}
+			}
+		}
+		nm := r.Pick(5, 4, 3, 1)
 		for i := 0; i < nm; i++ {
-			switch r.Pick(30, 34, 8, 4, 4, 2, 2) {
+			switch r.Pick(20, 24, 10, 6, 3, 5, 3) {
 			case 0: // prevote
 				v := pickVal()
 				op := c11Op{Kind: "prevote", H: h, Val: v, Feeder: pickFeeder(v), HashFor: v, HashMode: "honest",
